@@ -1189,6 +1189,9 @@ class Symx:
             if any(not isinstance(o.value, sp.Basic) for o in live):
                 raise Undecided('multi-path inline with a container value: ' + fn.q)
             pieces = [(o.value, sp.And(*o.state.conds[len(st.conds):])) for o in live]
+            if all(isinstance(v_, sp.logic.boolalg.Boolean) for v_, c_ in pieces):
+                # a predicate: 1 where some path returns true (a Piecewise of truth values would be rewritten as ITE by sympy)
+                return Piecewise((Integer(1), sp.Or(*[sp.And(v_, c_) for v_, c_ in pieces])), (Integer(0), True))
             return Piecewise(*pieces)
         raise Undecided('cannot inline ' + fn.q)
 
